@@ -741,12 +741,32 @@ def facet_table(ck, F, X):
         for (src, ev) in rows:
             for (nf, tr, ty) in ev.holes():
                 t = og.numeric_text_type(nf, _ce(X)) or ty.replace("&", "").strip()
+                # the number is the facet's text read as a whole: a bound made from a part of the text (what stands in front of a `.`,
+                # behind a sign ..) is a bound the schema does not state — and one for a type whose values the carrier cannot compare
+                # (`minInclusive="0.00"` of a decimal type becomes an integer bound of a text carrier that reads integers only)
+                cem = og.CallExpander(F, general_matches=True)
+                exp_ = cem.expand(nf)
+                parts_of = sorted({str(c_[1]).rsplit("::", 1)[-1] for c_ in og.nf_calls(exp_)} & PARTIAL_TEXT_STEPS)
+                for c_ in og.nf_calls(exp_):
+                    # a helper of the crate that stays a call (early returns, a `match` with guards): what its body does to the text
+                    hb = F.lib.body(str(c_[1])) if isinstance(c_[1], str) else None
+                    if hb is not None and hb.get("hir") is not None and not parts_of:
+                        parts_of = sorted({x_["name"] for x_ in Hh.exprs(Hh.norm_body(hb)["value"]) if x_.get("k") == "MethodCall"} & PARTIAL_TEXT_STEPS)
+                if parts_of:
+                    ck.violation("R6", f"{hf}:partial-text", ev.site,
+                                 f"`{hf}: Some({{..}})` is made from a part of the facet's text (`{parts_of[0]}`), not from the text read as one number: facets "
+                                 f"written `0.00` / `100.0` on decimal types become integer bounds of a carrier that refuses every value with a fraction")
                 if t in ("i8", "i16", "i32", "i64", "i128", "u8", "u16", "u32", "u64", "u128", "usize", "isize"):
                     ck.ok("R6", f"{hf}:typed", ev.site, f"`{hf}` literal is emitted from a value of type {t}")
                 else:
                     ck.violation("R6", f"{hf}:untyped", ev.site,
                                  f"`{hf}: Some({{..}})` is filled with a value of type `{ty}` (raw schema text): a non-integer facet value "
                                  f"yields code that does not compile or is not a number")
+
+
+PARTIAL_TEXT_STEPS = {"split_once", "rsplit_once", "split", "rsplit", "splitn", "rsplitn", "split_at", "find", "rfind", "bytes", "chars", "char_indices",
+                      "replace", "replacen", "trim_matches", "trim_start_matches", "trim_end_matches", "strip_prefix", "strip_suffix", "get", "split_terminator",
+                      "split_whitespace", "truncate", "drain"}
 
 
 def _facet_fields(nf, names, out=None):
